@@ -61,6 +61,14 @@ func runProp(cfg *vc.Config, rep *vc.Report, gen func(*vc.Rand) *Scenario, oracl
 	if cfg.Tier == "thorough" {
 		nSched = schedT
 	}
+	if cfg.Shard == 0 && cfg.Only < 0 && (cfg.Prop == "C05" || cfg.Prop == "C16") {
+		// the batch boundary: > 4096 writes queued behind a held first batch
+		run, max := runBigBatch(4400)
+		rep.Max("max_batch_size", int64(max))
+		sc := &Scenario{Kind: "big-batch"}
+		account(rep, cfg, -2, 0, sc, run, oracle(run.Obs))
+		rep.Inc("batch_boundary_scenarios")
+	}
 	cfg.Cases(quick, thorough, func(i int, r *vc.Rand) {
 		sc := gen(r.Fork())
 		for k := 0; k < nSched; k++ {
@@ -228,6 +236,12 @@ func traces(run *ScenarioRun) [][]string {
 // InsertLogs calls), then one run per death point k in 0..S-1 and one per failing InsertLogs call j in 1..B, each followed
 // by a fresh generation that issues more writes.
 func runC06(cfg *vc.Config, rep *vc.Report) {
+	if cfg.Shard == 0 && cfg.Only < 0 {
+		run, max := runBigBatch(4400)
+		rep.Max("max_batch_size", int64(max))
+		account(rep, cfg, -2, 0, &Scenario{Kind: "big-batch"}, run, checkAckPersist(run.Obs))
+		rep.Inc("batch_boundary_scenarios")
+	}
 	cfg.Cases(40, 1200, func(i int, r *vc.Rand) {
 		sc := genWrites(r.Fork())
 		seed := r.Uint64()
